@@ -93,7 +93,8 @@ impl FlagConstructor for ForeignCtor {
 /// entry-level wrappers (innermost first in a stack)
 #[derive(Clone, Debug)]
 enum W {
-    Boxed,
+    /// 0 `BoxEntry::new(e)` | 1 `e.boxed()` | 2 appended to a `BoxEntrySink` and observed at the recording sink below
+    Boxed(u8),
     MergeAfter(GenEntry),
     MergeBefore(GenEntry),
     MergeRefAfter(GenEntry),
@@ -140,6 +141,66 @@ enum Case {
     Seq(Vec<char>, Vec<W>, Vec<(bool, GenEntry)>),
     /// fixed scenario number `n` with the harness's own (non-EMF) `MetricOptions` type, see `foreign_case`
     Foreign(u8),
+    /// the inner case with every plain entry's `sample_group()` iterator built in shape `q` (see `shaped`):
+    /// exact-size or lazy with an inexact `size_hint`. Not an input of the model.
+    Q(u8, Box<Case>),
+}
+
+const NSHAPES: u8 = 7;
+thread_local! {
+    /// iterator shape used by `Lz::new` / `VEntry::sample_group` while a `Case::Q` is evaluated
+    static QSHAPE: std::cell::Cell<u8> = const { std::cell::Cell::new(0) };
+}
+fn with_shape<T>(q: u8, f: impl FnOnce() -> T) -> T {
+    let old = QSHAPE.with(|c| c.replace(q));
+    let r = f();
+    QSHAPE.with(|c| c.set(old));
+    r
+}
+
+/// The same elements in the same order through iterators with different `size_hint`s:
+/// 0 `Vec::into_iter` (exact) | 1 `filter` (0, Some n) | 2 `flatten` of `Option`s | 3 `from_fn` (0, None) |
+/// 4 `flat_map` to `once` | 5 `once(first).chain(rest.filter(..))` (inexact, lower bound 1) | 6 `filter_map`
+fn shaped(v: Vec<SampleGroupElement>, q: u8) -> Box<dyn Iterator<Item = SampleGroupElement>> {
+    match q {
+        0 => Box::new(v.into_iter()),
+        1 => Box::new(v.into_iter().filter(|_| true)),
+        2 => Box::new(v.into_iter().map(Some).flatten()),
+        3 => {
+            let mut it = v.into_iter();
+            Box::new(std::iter::from_fn(move || it.next()))
+        }
+        4 => Box::new(v.into_iter().flat_map(std::iter::once)),
+        5 => {
+            let mut it = v.into_iter();
+            match it.next() {
+                Some(first) => Box::new(std::iter::once(first).chain(it.filter(|_| true))),
+                None => Box::new(std::iter::empty().chain(it.filter(|_| true))),
+            }
+        }
+        _ => Box::new(v.into_iter().filter_map(Some)),
+    }
+}
+
+/// The plain entry as a real `Entry`: writes what the `GenEntry` writes; its `sample_group()` iterator has
+/// the shape current when it was built.
+#[derive(Clone)]
+struct Lz {
+    g: GenEntry,
+    q: u8,
+}
+impl Lz {
+    fn new(g: &GenEntry) -> Lz {
+        Lz { g: g.clone(), q: QSHAPE.with(|c| c.get()) }
+    }
+}
+impl Entry for Lz {
+    fn write<'a>(&'a self, w: &mut impl EntryWriter<'a>) {
+        self.g.write(w)
+    }
+    fn sample_group(&self) -> impl Iterator<Item = SampleGroupElement> {
+        shaped(self.g.sample_group.iter().map(|(k, v)| (Cow::Owned(k.clone()), Cow::Owned(v.clone()))).collect(), self.q)
+    }
 }
 
 #[derive(Clone)]
@@ -295,11 +356,10 @@ impl Entry for VEntry {
         }
     }
     fn sample_group(&self) -> impl Iterator<Item = SampleGroupElement> {
-        self.sample_group
-            .iter()
-            .map(|(k, v)| (Cow::Owned(k.clone()), Cow::Owned(v.clone())))
-            .collect::<Vec<_>>()
-            .into_iter()
+        shaped(
+            self.sample_group.iter().map(|(k, v)| (Cow::Owned(k.clone()), Cow::Owned(v.clone()))).collect(),
+            QSHAPE.with(|c| c.get()),
+        )
     }
 }
 
@@ -344,7 +404,9 @@ impl W {
     fn encode(&self, model: bool) -> String {
         let ent = |e: &GenEntry| if model { model_items(e) } else { e.encode() };
         match self {
-            W::Boxed => "B".into(),
+            W::Boxed(0) => "B".into(),
+            W::Boxed(1) => if model { "B".into() } else { "Bb".into() },
+            W::Boxed(_) => if model { "B".into() } else { "Bs".into() },
             W::MergeAfter(o) => format!("Mo {}", ent(o)),
             W::MergeBefore(o) => format!("Mg {}", ent(o)),
             W::MergeRefAfter(o) => format!("mr {}", ent(o)),
@@ -390,7 +452,9 @@ impl W {
             Some((d, Some(tail.iter().map(|t| uhs(t)).collect::<Option<Vec<_>>>()?)))
         };
         Some(match *k {
-            "B" => W::Boxed,
+            "B" => W::Boxed(0),
+            "Bb" => W::Boxed(1),
+            "Bs" => W::Boxed(2),
             "Mo" => W::MergeAfter(ent()?),
             "Mg" => W::MergeBefore(ent()?),
             "mr" => W::MergeRefAfter(ent()?),
@@ -421,7 +485,8 @@ impl W {
 
     fn kind(&self) -> &'static str {
         match self {
-            W::Boxed => "BoxEntry",
+            W::Boxed(2) => "BoxEntrySink",
+            W::Boxed(_) => "BoxEntry",
             W::MergeAfter(_) => "Merged(e,other)",
             W::MergeBefore(_) => "Merged(other,e)",
             W::MergeRefAfter(_) => "MergedRef(e,other)",
@@ -527,9 +592,18 @@ impl Case {
             }
             Case::Seq(script, ads, es) => seq_line("S", script, ads, es, false),
             Case::Foreign(n) => format!("X {n}"),
+            Case::Q(q, c) => format!("Q{q} {}", c.encode()),
         }
     }
     fn decode(line: &str) -> Option<Case> {
+        if let Some(rest) = line.strip_prefix('Q') {
+            let (q, inner) = rest.split_once(' ')?;
+            let q: u8 = q.parse().ok()?;
+            if q >= NSHAPES {
+                return None;
+            }
+            return Some(Case::Q(q, Box::new(Case::decode(inner)?)));
+        }
         let mut segs = line.split(" ; ");
         let head = segs.next()?;
         if let Some(e) = head.strip_prefix("E ") {
@@ -594,6 +668,8 @@ impl Case {
             }
             Case::Seq(script, ads, es) => seq_line("seq", script, ads, es, true),
             Case::Foreign(_) => String::new(), // not modelled (documented limit): oracle only
+            // the iterator's size hint is not an input of the model: a sample group is a list
+            Case::Q(_, c) => c.model_request(),
         }
     }
 }
@@ -819,6 +895,34 @@ struct S<N>(PhantomData<N>);
 type Run = S<S<Z>>;
 const RUN: usize = 2;
 
+/// A recording `EntrySink<BoxEntry>`: what a `BoxEntrySink` hands to the sink below.
+#[derive(Clone, Default)]
+struct CaptureSink(Arc<std::sync::Mutex<Vec<BoxEntry>>>);
+impl metrique_writer_core::EntrySink<BoxEntry> for CaptureSink {
+    fn append(&self, entry: BoxEntry) {
+        self.0.lock().unwrap().push(entry);
+    }
+    fn flush_async(&self) -> metrique_writer_core::sink::FlushWait {
+        metrique_writer_core::sink::FlushWait::ready()
+    }
+}
+
+/// the three ways an entry gets boxed
+fn box_via<E: Entry + Send + 'static>(e: E, how: u8) -> BoxEntry {
+    match how {
+        0 => BoxEntry::new(e),
+        1 => Entry::boxed(e),
+        _ => {
+            let cap = CaptureSink::default();
+            let sink = metrique_writer_core::BoxEntrySink::new(cap.clone());
+            metrique_writer_core::AnyEntrySink::append_any(&sink, e);
+            let mut got = cap.0.lock().unwrap();
+            assert_eq!(got.len(), 1, "BoxEntrySink handed {} entries to the sink below for one append", got.len());
+            got.pop().unwrap()
+        }
+    }
+}
+
 fn is_empty_entry(e: &GenEntry) -> bool {
     e.items.is_empty() && e.sample_group.is_empty()
 }
@@ -854,8 +958,8 @@ macro_rules! common_arms {
             // an entry without items and sample group is merged in as the real `EmptyEntry` type
             W::MergeAfter(o) if is_empty_entry(o) => <$N>::$go($e.merge(EmptyEntry), $rest, $v),
             W::MergeBefore(o) if is_empty_entry(o) => <$N>::$go(EmptyEntry.merge($e), $rest, $v),
-            W::MergeAfter(o) => <$N>::$go($e.merge(o.clone()), $rest, $v),
-            W::MergeBefore(o) => <$N>::$go(o.clone().merge($e), $rest, $v),
+            W::MergeAfter(o) => <$N>::$go($e.merge(Lz::new(o)), $rest, $v),
+            W::MergeBefore(o) => <$N>::$go(Lz::new(o).merge($e), $rest, $v),
             W::Dims(0, d) => <$N>::$go(mk_dims::<_, 0>($e, d), $rest, $v),
             W::Dims(1, d) => <$N>::$go(mk_dims::<_, 1>($e, d), $rest, $v),
             W::Dims(_, d) => <$N>::$go(mk_dims::<_, 2>($e, d), $rest, $v),
@@ -871,8 +975,14 @@ macro_rules! common_arms {
             }
             W::Box_ => <$N>::$go(Box::new($e), $rest, $v),
             W::Ref => <$N>::go_r(&$e, $rest, $v),
-            W::MergeRefAfter(o) => <$N>::go_r($e.merge_by_ref(o), $rest, $v),
-            W::MergeRefBefore(o) => <$N>::go_r(o.merge_by_ref(&$e), $rest, $v),
+            W::MergeRefAfter(o) => {
+                let lz = Lz::new(o);
+                <$N>::go_r($e.merge_by_ref(&lz), $rest, $v)
+            }
+            W::MergeRefBefore(o) => {
+                let lz = Lz::new(o);
+                <$N>::go_r(lz.merge_by_ref(&$e), $rest, $v)
+            }
             $($extra)*
         }
     };
@@ -896,7 +1006,7 @@ impl Fuel for Z {
     fn go_n<E: Entry + Send + 'static, V: EV>(e: E, ws: &[W], v: &mut V) {
         match ws.split_first() {
             None => v.finish_owned(e),
-            Some((W::Boxed, rest)) => Run::go_n(BoxEntry::new(e), rest, v),
+            Some((W::Boxed(how), rest)) => Run::go_n(box_via(e, *how), rest, v),
             Some(_) => panic!("{BAD_STACK}"),
         }
     }
@@ -912,7 +1022,7 @@ impl<N: Fuel> Fuel for S<N> {
     fn go_c<E: Entry + Clone + Send + Sync + 'static, V: EV>(e: E, ws: &[W], v: &mut V) {
         let Some((w, rest)) = ws.split_first() else { return v.finish_owned(e) };
         common_arms!(N, go_c, e, w, rest, v, {
-            W::Boxed => Run::go_n(BoxEntry::new(e), rest, v),
+            W::Boxed(how) => Run::go_n(box_via(e, *how), rest, v),
             W::Arc_ => {
                 let a = Arc::new(e);
                 let _shared = Arc::clone(&a);
@@ -927,7 +1037,7 @@ impl<N: Fuel> Fuel for S<N> {
     fn go_n<E: Entry + Send + 'static, V: EV>(e: E, ws: &[W], v: &mut V) {
         let Some((w, rest)) = ws.split_first() else { return v.finish_owned(e) };
         common_arms!(N, go_n, e, w, rest, v, {
-            W::Boxed => Run::go_n(BoxEntry::new(e), rest, v),
+            W::Boxed(how) => Run::go_n(box_via(e, *how), rest, v),
             W::Arc_ => {
                 let a = Arc::new(e);
                 let _shared = Arc::clone(&a);
@@ -946,7 +1056,7 @@ impl<N: Fuel> Fuel for S<N> {
                 N::go_r(a, rest, v)
             }
             W::Root => N::go_r(RootEntry::new(AsInfl(e)), rest, v),
-            W::Boxed | W::CowOwned | W::CowBorrowed | W::StreamGlobals(..) | W::StreamDims(..) | W::StreamForce(_) => panic!("{BAD_STACK}"),
+            W::Boxed(_) | W::CowOwned | W::CowBorrowed | W::StreamGlobals(..) | W::StreamDims(..) | W::StreamForce(_) => panic!("{BAD_STACK}"),
         })
     }
 }
@@ -980,7 +1090,7 @@ fn valid_stack_with(ws: &[W], first: usize) -> Result<(), &'static str> {
         seen_fmt |= fmt;
     }
     for w in &ws[..n_entry] {
-        if matches!(w, W::Boxed) {
+        if matches!(w, W::Boxed(_)) {
             if path == 2 {
                 return Err("BoxEntry over a borrowed type");
             }
@@ -1094,7 +1204,7 @@ impl<E: Entry> Drive for One<'_, E> {
 }
 
 enum SeqEntry {
-    Plain(GenEntry),
+    Plain(Lz),
     Boxed(BoxEntry),
 }
 
@@ -1144,7 +1254,7 @@ impl<N: SFuel> SFuel for S<N> {
         };
         match w {
             W::StreamGlobals(true, g) if is_empty_entry(g) => N::sgo_f(FormatExt::merge_globals(f, EmptyEntry), rest, d),
-            W::StreamGlobals(true, g) => N::sgo_f(FormatExt::merge_globals(f, g.clone()), rest, d),
+            W::StreamGlobals(true, g) => N::sgo_f(FormatExt::merge_globals(f, Lz::new(g)), rest, d),
             W::StreamDims(true, dm, deny) => {
                 N::sgo_f(FormatExt::merge_global_dimensions(f, sv_dims::<2>(dm), deny_set(deny)), rest, d)
             }
@@ -1157,7 +1267,7 @@ impl<N: SFuel> SFuel for S<N> {
             W::StreamGlobals(false, g) if is_empty_entry(g) => {
                 N::sgo_s(EntryIoStreamExt::merge_globals(s, EmptyEntry), rest, d)
             }
-            W::StreamGlobals(false, g) => N::sgo_s(EntryIoStreamExt::merge_globals(s, g.clone()), rest, d),
+            W::StreamGlobals(false, g) => N::sgo_s(EntryIoStreamExt::merge_globals(s, Lz::new(g)), rest, d),
             W::StreamDims(false, dm, deny) => {
                 N::sgo_s(EntryIoStreamExt::merge_global_dimensions(s, sv_dims::<1>(dm), deny_set(deny)), rest, d)
             }
@@ -1196,7 +1306,7 @@ fn run_seq(adapters: &[W], script: &[char], entries: &[(bool, GenEntry)]) -> Res
     match catch(|| {
         let es: Vec<SeqEntry> = entries
             .iter()
-            .map(|(boxed, g)| if *boxed { SeqEntry::Boxed(BoxEntry::new(g.clone())) } else { SeqEntry::Plain(g.clone()) })
+            .map(|(boxed, g)| if *boxed { SeqEntry::Boxed(BoxEntry::new(Lz::new(g))) } else { SeqEntry::Plain(Lz::new(g)) })
             .collect();
         let mut d = Many(&es, vec![]);
         let seen = drive_streams(adapters, script, &mut d);
@@ -1420,7 +1530,7 @@ fn expected_entry(plain: &Recorded, ws: &[W], plain_of: &dyn Fn(&GenEntry) -> Re
     let (mut log, mut sg) = plain.clone();
     for w in ws {
         match w {
-            W::Boxed | W::Ref | W::Box_ | W::Arc_ | W::CowOwned | W::CowBorrowed | W::Some_ | W::Root => {}
+            W::Boxed(_) | W::Ref | W::Box_ | W::Arc_ | W::CowOwned | W::CowBorrowed | W::Some_ | W::Root => {}
             W::None_ => {
                 log.clear();
                 sg.clear();
@@ -1552,7 +1662,7 @@ fn check(c: &Case) -> Result<String, (String, String, String)> {
     match c {
         Case::Entry(base, ws) => {
             let plain = record(base);
-            let got = match run_entry::<GenEntry, Run>(base, ws) {
+            let got = match run_entry::<Lz, Run>(&Lz::new(base), ws) {
                 Ok(g) => g,
                 Err(e) => return Err(("panic-or-error".into(), format!("wrapped entry failed: {e}"), e)),
             };
@@ -1608,6 +1718,7 @@ fn check(c: &Case) -> Result<String, (String, String, String)> {
             }
             Ok(shown)
         }
+        Case::Q(q, inner) => with_shape(*q, || check(inner)),
         Case::Foreign(n) => match catch(|| foreign_case(*n)) {
             Ok(Some((what, flags))) => {
                 let want = format!("?{}", hs("MetricFlags(Some(ForeignOpt))"));
@@ -1642,7 +1753,7 @@ fn check(c: &Case) -> Result<String, (String, String, String)> {
             }
             for (i, (boxed, e)) in es.iter().enumerate() {
                 // (a) a FRESH instance of the same adapters, given this entry alone
-                let fresh = if *boxed { run_streams(&BoxEntry::new(e.clone()), ads) } else { run_streams(e, ads) };
+                let fresh = if *boxed { run_streams(&BoxEntry::new(Lz::new(e)), ads) } else { run_streams(&Lz::new(e), ads) };
                 let fresh = match fresh {
                     Ok(f) => f,
                     Err(err) => return Err(("panic-or-error".into(), format!("fresh adapters failed on entry #{i}: {err}"), shown)),
@@ -1710,6 +1821,7 @@ fn valid(c: &Case) -> Result<(), &'static str> {
         Case::Foreign(n) => {
             if *n < FOREIGN_CASES { Ok(()) } else { Err("no such foreign-flags scenario") }
         }
+        Case::Q(_, c) => valid(c),
         Case::Seq(_, ads, es) => {
             if ads.iter().any(|w| !w.is_stream()) {
                 return Err("only stream / format adapters in a sequence case");
@@ -1785,6 +1897,7 @@ fn shrink(c: &Case) -> Case {
             Case::Value(base.clone(), ws2)
         }
         Case::Foreign(n) => Case::Foreign(*n),
+        Case::Q(q, inner) => Case::Q(*q, Box::new(with_shape(*q, || shrink(inner)))),
         Case::Seq(script, ads, es) => {
             // entries together with the answer they got
             let pairs: Vec<(char, bool, GenEntry)> =
@@ -1832,6 +1945,7 @@ fn site_key(c: &Case, class: &str) -> String {
         Case::WEntry(_, ws) => std::iter::once("wrapped-values").chain(ws.iter().map(|w| w.kind())).collect(),
         Case::Seq(_, ads, _) => std::iter::once("sequence").chain(ads.iter().map(|w| w.kind())).collect(),
         Case::Foreign(_) => vec!["foreign-options"],
+        Case::Q(_, inner) => return site_key(inner, class),
     };
     format!("wrappers:{}:{}", class, if kinds.is_empty() { "plain".to_string() } else { kinds.join("/") })
 }
@@ -2004,7 +2118,7 @@ fn gen_stack_with(rng: &mut Rng, depth: usize, base: &GenEntry, first: usize) ->
             if path == 2 {
                 break;
             }
-            ws.push(W::Boxed);
+            ws.push(W::Boxed(rng.below(3) as u8));
             path = 1;
             run = 0;
             limit = RUN;
@@ -2012,7 +2126,7 @@ fn gen_stack_with(rng: &mut Rng, depth: usize, base: &GenEntry, first: usize) ->
         }
         let w = loop {
             let w = match rng.below(22) {
-                0..=2 => W::Boxed,
+                0..=2 => W::Boxed(rng.below(3) as u8),
                 3 => W::MergeAfter(gen_base(rng, 3)),
                 4 => W::MergeBefore(gen_base(rng, 3)),
                 5 => W::MergeRefAfter(gen_base(rng, 3)),
@@ -2032,7 +2146,7 @@ fn gen_stack_with(rng: &mut Rng, depth: usize, base: &GenEntry, first: usize) ->
                 _ => W::Root,
             };
             let ok = match &w {
-                W::Boxed => path != 2,
+                W::Boxed(_) => path != 2,
                 W::CowOwned | W::CowBorrowed => path == 0,
                 _ => true,
             };
@@ -2044,7 +2158,7 @@ fn gen_stack_with(rng: &mut Rng, depth: usize, base: &GenEntry, first: usize) ->
             }
         };
         match &w {
-            W::Boxed => {
+            W::Boxed(_) => {
                 path = 1;
                 run = 0;
                 limit = RUN;
@@ -2174,7 +2288,11 @@ fn gen_case(rng: &mut Rng, max_depth: usize) -> Case {
     NASTY.with(|c| c.set(n));
     let c = gen_case_inner(rng, max_depth);
     NASTY.with(|c| c.set(false));
-    c
+    // two thirds of the cases with a lazy / inexact-size sample-group iterator
+    match rng.below(3 * (NSHAPES as u64 - 1)) {
+        q if q < 2 * (NSHAPES as u64 - 1) => Case::Q((q % (NSHAPES as u64 - 1)) as u8 + 1, Box::new(c)),
+        _ => c,
+    }
 }
 
 fn gen_case_inner(rng: &mut Rng, max_depth: usize) -> Case {
@@ -2273,6 +2391,10 @@ fn describe(rep: &mut Report, c: &Case, shown: &str) {
                 rep.bump("wrapped log empty");
             }
         }
+        Case::Q(q, inner) => {
+            rep.bump(&format!("sample-group iterator shape:{q}"));
+            describe(rep, inner, shown);
+        }
         Case::Foreign(_) => {}
         Case::Seq(script, ads, es) => {
             rep.bump(&format!("sequence length:{}", es.len()));
@@ -2317,6 +2439,7 @@ fn nontrivial(c: &Case, shown: &str) -> bool {
                 && script.iter().position(|c| *c != 'o').map_or(false, |p| es[p + 1..].iter().any(|(_, e)| !e.items.is_empty()))
         }
         Case::Foreign(_) => true,
+        Case::Q(_, inner) => nontrivial(inner, shown),
     }
 }
 
@@ -2352,7 +2475,7 @@ fn run_batch(rep: &mut Report, args: &Args, cases: &[Case], sample_every: usize)
         if sample_every > 0 && ci % sample_every == 7 % sample_every {
             rep.sample(json!({"case": enc, "impl": shown}));
         }
-        if matches!(c, Case::Foreign(_)) {
+        if c.model_request().is_empty() {
             rep.bump("foreign-options fixed scenarios (oracle only, not modelled)");
             continue;
         }
@@ -2364,12 +2487,17 @@ fn run_batch(rep: &mut Report, args: &Args, cases: &[Case], sample_every: usize)
         Some(replies) => {
             for ((ci, got), reply) in idx.iter().zip(impl_out.iter()).zip(replies.iter()) {
                 if got != reply {
-                    let comp = match &cases[*ci] {
+                    let mut inner = &cases[*ci];
+                    while let Case::Q(_, c) = inner {
+                        inner = c;
+                    }
+                    let comp = match inner {
                         Case::Entry(..) => "wrappers/entry-stack",
                         Case::Value(..) => "wrappers/value-stack",
                         Case::WEntry(..) => "wrappers/entry-stack-over-wrapped-values",
                         Case::Seq(..) => "wrappers/adapter-sequence",
                         Case::Foreign(..) => "wrappers/foreign-options",
+                        Case::Q(..) => unreachable!(),
                     };
                     rep.disagreement(comp, &cases[*ci].encode(), got, reply);
                 }
@@ -2410,7 +2538,9 @@ fn systematic_cases(rng: &mut Rng) -> Vec<Case> {
     let dims = || vec![("AZ".to_string(), "b".to_string()), ("Cell".to_string(), "c1".to_string())];
     let kinds = |rng: &mut Rng| -> Vec<W> {
         vec![
-            W::Boxed,
+            W::Boxed(0),
+            W::Boxed(1),
+            W::Boxed(2),
             W::MergeAfter(other()),
             W::MergeBefore(other()),
             W::MergeRefAfter(other()),
@@ -2450,7 +2580,7 @@ fn systematic_cases(rng: &mut Rng) -> Vec<Case> {
         out.push(Case::Entry(base(), vec![a.clone()]));
         for b in kinds(rng) {
             for mid_box in [false, true] {
-                let ws = if mid_box { vec![a.clone(), W::Boxed, b.clone()] } else { vec![a.clone(), b.clone()] };
+                let ws = if mid_box { vec![a.clone(), W::Boxed(2), b.clone()] } else { vec![a.clone(), b.clone()] };
                 if valid_stack(&ws).is_ok() {
                     out.push(Case::Entry(base(), ws));
                 }
@@ -2465,7 +2595,7 @@ fn systematic_cases(rng: &mut Rng) -> Vec<Case> {
         .unwrap()
     };
     for a in kinds(rng) {
-        for ws in [vec![a.clone()], vec![a.clone(), W::Boxed], vec![W::Boxed, a.clone()], vec![W::Boxed, a.clone(), W::Boxed]] {
+        for ws in [vec![a.clone()], vec![a.clone(), W::Boxed(0)], vec![W::Boxed(2), a.clone()], vec![W::Boxed(1), a.clone(), W::Boxed(2)]] {
             if valid_stack_with(&ws, 1).is_ok() {
                 out.push(Case::WEntry(wbase(), ws));
             }
@@ -2540,6 +2670,7 @@ fn neighbour(rng: &mut Rng, c: &Case, max_depth: usize) -> Case {
             _ => gen_case(rng, max_depth),
         },
         Case::Foreign(_) => gen_case(rng, max_depth),
+        Case::Q(q, inner) => Case::Q(*q, Box::new(neighbour(rng, inner, max_depth))),
         Case::Seq(script, ads, es) => match rng.below(3) {
             0 => {
                 // same adapters and answers, other entries
@@ -2602,7 +2733,11 @@ fn main() {
         }
     }
     rep.bump_by("corpus cases", first.len() as u64);
-    first.extend(systematic_cases(&mut rng));
+    // every systematic case with an exact-size sample-group iterator and with one of the lazy shapes
+    for (i, c) in systematic_cases(&mut rng).into_iter().enumerate() {
+        first.push(Case::Q(1 + (i % (NSHAPES as usize - 1)) as u8, Box::new(c.clone())));
+        first.push(c);
+    }
     run_batch(&mut rep, &args, &first, 211);
 
     // random stacks, sharded
